@@ -127,13 +127,14 @@ Section Focus.
   Variable mklink : dm -> cid.
   Variable f : option dm -> option dm.
   Variable cp : bool.
+  Variable fault : bool.
   (* the callback only hands out nodes with unique map keys (every real node is such) *)
   Hypothesis f_wf : forall x v, owf x -> f x = Some v -> wf_dm v = true.
 
   (* no block of the store sits under the link of a different block (no hash collision in the store) *)
   Definition coherent (s : store) : Prop := forall b v, lookup (mklink b) s = Some v -> v = b.
 
-  Notation FT := (ft ltb mklink q_fixed f cp).
+  Notation FT := (ft ltb mklink q_fixed f cp fault).
   Notation XU := (xupd ltb mklink f cp).
 
   Definition slot_of (ot : option xt) : slot := match ot with Some t => Put (raw t) | None => Skip end.
@@ -145,11 +146,15 @@ Section Focus.
     (forall S, extends (w_store w') S -> coherent S -> ovalid S ot) /\ owfx ot /\
     exists k, (1 <= k)%nat /\ w_log w' = w_log w ++ repeat seen k.
 
+  (* failures that are not the transform's: the model ran out of fuel, or a store was refused
+     (by the codec or the storage) - the SPEC does not speak about those *)
+  Notation env_err e := (e = EFuel \/ e = EStore) (only parsing).
+
   Definition corr (w : world) (out : res xerr (slot * world)) (sres : xres) : Prop :=
     match sres with
     | XNeedLoad => True
-    | XOk ot seen => match out with Ok (s, w') => good w w' s ot seen | Err e => e = EFuel end
-    | XErr e' => match out with Ok _ => False | Err e => e = EFuel \/ e = e' end
+    | XOk ot seen => match out with Ok (s, w') => good w w' s ot seen | Err e => env_err e end
+    | XErr e' => match out with Ok _ => False | Err e => env_err e \/ e = e' end
     end.
 
   Definition na_ok (na : asm) (p : path) : Prop :=
@@ -440,6 +445,7 @@ Section Focus.
         destruct (FT fu (Some (raw t1)) AAny (s :: p2) w) as [[s0 w1]|e0]; simpl in *; auto;
         try contradiction.
       destruct Hc as (H4 & H5 & H6 & H7 & H8). subst s0; cbn [slot_of]; simpl.
+      destruct (fault || has_refused (raw r)); [simpl; auto|]. simpl.
       repeat split; auto.
       + eapply extends_trans; [exact H5 | apply put_extends].
       + intros S HS HcS. unfold reblock.
